@@ -8,6 +8,7 @@ import (
 	"github.com/LemoFoundationLtd/lemochain-core/common"
 	"github.com/LemoFoundationLtd/lemochain-core/common/log"
 	"github.com/LemoFoundationLtd/lemochain-core/common/rlp"
+	"github.com/LemoFoundationLtd/lemochain-core/store/crashpoint"
 	"github.com/LemoFoundationLtd/lemochain-core/store/leveldb"
 	"math/big"
 	"os"
@@ -557,6 +558,10 @@ func (context *RunContext) flush(headBuf, bodyBuf []byte) error {
 		return err
 	}
 
+	if cut, torn := crashpoint.Cut("context-head", context.Path, len(headBuf)); torn {
+		file.Write(headBuf[:cut])
+		crashpoint.Die()
+	}
 	n, err := file.Write(headBuf)
 	if err != nil {
 		return err
@@ -571,6 +576,10 @@ func (context *RunContext) flush(headBuf, bodyBuf []byte) error {
 		return err
 	}
 
+	if cut, torn := crashpoint.Cut("context-body", context.Path, len(bodyBuf)); torn {
+		file.Write(bodyBuf[:cut])
+		crashpoint.Die()
+	}
 	n, err = file.Write(bodyBuf)
 	if err != nil {
 		return err
@@ -580,6 +589,7 @@ func (context *RunContext) flush(headBuf, bodyBuf []byte) error {
 		panic("n != len(body data)")
 	}
 
+	crashpoint.Hit("context-written", context.Path)
 	return file.Sync()
 }
 
